@@ -183,10 +183,27 @@ func Body(f *ssa.Function) []*ssa.Function {
 		}
 		for _, b := range g.Blocks {
 			for _, in := range b.Instrs {
-				if h := inl.callee[in]; h != nil && !seen[h] {
-					seen[h] = true
-					out = append(out, h)
-					rec(h, d+1)
+				if h := inl.callee[in]; h != nil {
+					if !seen[h] {
+						seen[h] = true
+						out = append(out, h)
+						rec(h, d+1)
+					}
+					// callbacks handed to the inlined helper (closures / functions of the repository) run as part of it
+					for _, a := range in.(*ssa.Call).Call.Args {
+						var t *ssa.Function
+						switch x := a.(type) {
+						case *ssa.MakeClosure:
+							t, _ = x.Fn.(*ssa.Function)
+						case *ssa.Function:
+							t = x
+						}
+						if t != nil && t.Blocks != nil && !seen[t] && pkgOf(t) != nil && strings.HasPrefix(pkgOf(t).Pkg.Path(), Module) {
+							seen[t] = true
+							out = append(out, t)
+							rec(t, d+1)
+						}
+					}
 				}
 			}
 		}
@@ -410,4 +427,46 @@ func pkgOf(f *ssa.Function) *ssa.Package {
 		return o.Pkg
 	}
 	return nil
+}
+
+// EffectiveReturns lists the return instructions through which f hands back its results: its own, except that a
+// return which merely forwards the results of a virtually inlined call is replaced by that callee's returns.
+func EffectiveReturns(f *ssa.Function) []*ssa.Return {
+	var out []*ssa.Return
+	var rec func(g *ssa.Function, d int)
+	rec = func(g *ssa.Function, d int) {
+		for _, ret := range Returns(g) {
+			var site *ssa.Call
+			if d < 3 && len(ret.Results) > 0 {
+				all := true
+				for i, rv := range ret.Results {
+					var c *ssa.Call
+					switch x := rv.(type) {
+					case *ssa.Call:
+						c = x
+					case *ssa.Extract:
+						c, _ = x.Tuple.(*ssa.Call)
+						if x.Index != i {
+							c = nil
+						}
+					}
+					if c == nil || InlinedCallee(c) == nil || (site != nil && site != c) {
+						all = false
+						break
+					}
+					site = c
+				}
+				if !all {
+					site = nil
+				}
+			}
+			if site != nil {
+				rec(InlinedCallee(site), d+1)
+			} else {
+				out = append(out, ret)
+			}
+		}
+	}
+	rec(f, 0)
+	return out
 }
